@@ -77,7 +77,7 @@ bool gp_check_bounds(size_t* start, size_t* end, size_t limit)
         clipped = true;
     }
     if (start != NULL && *start >= *end) {
-        *start  = *end - (limit != 0);
+        *start  = *end - (*end != 0);
         clipped = true;
     }
     return ! clipped;
